@@ -49,7 +49,7 @@ def _guard(pred_builder, why):
 def _tls_domain_validated(facts, s):
     """The domain reaching TlsStream::new on the request path was validated by TlsTransportWrapper::call."""
     try:
-        call = facts.method("client::conn::transport::tls::TlsTransportWrapper", "Service", "call")
+        call = facts.unit(facts.method("client::conn::transport::tls::TlsTransportWrapper", "Service", "call"), expand=True)
     except KeyError:
         return False, "TlsTransportWrapper::call not found"
     news = call.calls("client::conn::transport::tls::future::TlsConnectionFuture::new")
@@ -77,7 +77,7 @@ def _tls_domain_validated(facts, s):
         if not (hr & validated):
             return False, "the domain given to the TLS future is not the value that was validated with ServerName::try_from"
     callers = {x.fn.nkey for x in facts.call_sites_of("client::conn::transport::tls::future::TlsConnectionFuture::new")}
-    if callers != {call.nkey}:
+    if not callers <= ({call.nkey} | {norm(k) for k in call.inlined}):
         return False, "TlsConnectionFuture::new has other callers: %s" % sorted(callers)
     return True, ""
 
